@@ -53,6 +53,32 @@ func PDFBroken() []byte {
 	return pdfw.Write(d, pdfw.Layout{}).Bytes
 }
 
+// PDFTies: frequency ties everywhere — two left margins, two font sizes, two alignments, each
+// used by the same number of lines (frequency-based heuristics must break such ties deterministically).
+func PDFTies() []byte {
+	l := func(x, y, size float64, s string) pdfw.Line {
+		return pdfw.Line{Font: pdfw.Type1WinAnsi, Text: s, X: x, Y: y, Size: size}
+	}
+	d := pdfw.Doc{Name: "ties", Pages: []pdfw.Page{{Lines: []pdfw.Line{
+		l(72, 720, 10, "Small block first line with enough words to look like body text here."),
+		l(72, 708, 10, "Small block second line with enough words to look like body text too."),
+		l(120, 660, 14, "Large block first line also long enough to be a paragraph."),
+		l(120, 643, 14, "Large block second line also long enough to be a paragraph."),
+	}}, {Lines: []pdfw.Line{
+		l(72, 720, 14, "Page two large line one with several words in it."),
+		l(72, 703, 14, "Page two large line two with several words in it."),
+		l(150, 650, 10, "Page two small indented line one with several words."),
+		l(150, 638, 10, "Page two small indented line two with several words."),
+	}}, {Lines: []pdfw.Line{
+		l(72, 720, 16, "Short Title"),
+		l(72, 660, 10, "One single body line that is long enough to be ordinary paragraph text, not a title."),
+	}}, {Lines: []pdfw.Line{
+		l(200, 720, 9, "Tiny Centered Caption"),
+		l(72, 660, 18, "INTRODUCTION"),
+	}}}}
+	return pdfw.Write(d, pdfw.Layout{}).Bytes
+}
+
 // PDFStream: same logical document as a.pdf with xref stream, object streams and Flate.
 func PDFStream() []byte {
 	return pdfw.Write(PDFDoc(), pdfw.Layout{XRef: "stream", ObjStm: "all", Filter: "Fl"}).Bytes
@@ -133,7 +159,7 @@ func Named() []struct {
 		Name string
 		Data []byte
 	}{
-		{"a.pdf", PDF()}, {"pending.pdf", PDFPending()}, {"broken.pdf", PDFBroken()}, {"stream.pdf", PDFStream()},
+		{"a.pdf", PDF()}, {"pending.pdf", PDFPending()}, {"broken.pdf", PDFBroken()}, {"stream.pdf", PDFStream()}, {"ties.pdf", PDFTies()},
 		{"a.docx", DOCX()}, {"a.odt", ODT()}, {"a.xlsx", XLSX()}, {"a.pptx", PPTX()}, {"a.epub", EPUB3()}, {"b.epub", EPUB2()}, {"a.html", HTML()},
 	}
 }
